@@ -47,15 +47,17 @@ def _phim(x):
 def _case(draw):
     closure = draw(st.sampled_from(["MOST", "MOST", "MOSTM", "CONSTANT", "OAAHOC"]))
     zm = draw(gen.logfl(1.0, 50.0))
-    stab = draw(st.sampled_from(["neutral", "stable", "unstable", "unstable", "near-neutral"]))
+    stab = draw(st.sampled_from(["neutral", "stable", "unstable", "unstable", "near-neutral", "neutral-inf"]))
     if stab == "neutral":
         mol = 1e9
+    elif stab == "neutral-inf":
+        mol = draw(st.sampled_from(["inf", "-inf"]))  # the neutral limit itself (kept as a string: JSON has no infinity)
     elif stab == "near-neutral":
         mol = draw(st.sampled_from([1.0, -1.0])) * zm * draw(gen.logfl(1e3, 1e7))
     else:
         mol = (1.0 if stab == "stable" else -1.0) * zm / draw(gen.logfl(0.01, 5.0))
     f = draw(gen.logfl(1e-4, 0.3))
-    need = 0.5 - _psi(zm / mol)
+    need = 0.5 - _psi(zm / float(mol))
     if math.log(1.0 / f) < need:
         f = math.exp(-need)
     z0 = zm * f
@@ -72,7 +74,7 @@ def _case(draw):
         case["ustar"] = math.sqrt(CM * CL * speed * math.sqrt(case["tke"]) / expo)
         case["forcing"] = "ustar"
     else:
-        case["ustar"] = KAP * speed / (math.log(zm / z0) + _psi(zm / mol))
+        case["ustar"] = KAP * speed / (math.log(zm / z0) + _psi(zm / float(mol)))
     case["twin"] = draw(st.sampled_from(["prsc", "closure", "wind", "n", "mol", "none"]))
     if draw(st.integers(0, 2)) == 0:
         h = zm * draw(gen.logfl(0.5, 10.0))
@@ -93,7 +95,7 @@ def strategy(tier):
 def _call(case, forcing=None, **override):
     from bldfm.pbl_model import vertical_profiles
 
-    kw = dict(n=case["n"], meas_height=case["zm"], wind=tuple(case["wind"]), mol=case["mol"], closure=case["closure"],
+    kw = dict(n=case["n"], meas_height=case["zm"], wind=tuple(case["wind"]), mol=float(case["mol"]), closure=case["closure"],
               prsc=case["prsc"])
     f = forcing or case["forcing"]
     if f == "z0":
@@ -114,7 +116,7 @@ def check_case(case):
     from bldfm import pbl_model
 
     out = Outcome()
-    cl, zm, L, n = case["closure"], case["zm"], case["mol"], case["n"]
+    cl, zm, L, n = case["closure"], case["zm"], float(case["mol"]), case["n"]
     um, vm = case["wind"]
     U = math.hypot(um, vm)
     custom = "stretch" in case
@@ -228,6 +230,10 @@ def check_case(case):
         out.bad(f"phi({x}) = {gp!r}, flux-gradient function gives {_phi(x)!r}")
     if x < 0 and not abs(gp**2 - _phim(x) ** 4) <= 1e-10 * gp**2:
         out.bad("phi(x<0)^2 != phi_m^4")
+    if float(pbl_model.psi(np.float64(0.0))) != 0.0 or float(pbl_model.psi(np.float64(-0.0))) != 0.0:
+        out.bad(f"psi(0) = {float(pbl_model.psi(np.float64(0.0)))!r} at exactly neutral stratification, expected 0")
+    if float(pbl_model.phi(np.float64(0.0))) != 1.0:
+        out.bad(f"phi(0) = {float(pbl_model.phi(np.float64(0.0)))!r} at exactly neutral stratification, expected 1")
     for eps in (1e-6, 1e-9):
         for sx in (eps, -eps):
             if not abs(float(pbl_model.psi(np.float64(sx)))) <= 6 * eps:
@@ -282,7 +288,7 @@ def check_case(case):
             t["n"] = n + 1
             t.pop("stretch", None), t.pop("domain_height", None)
         elif tw == "mol" and cl != "OAAHOC" and case["stab"] != "neutral":
-            t["mol"] = 2.0 * L
+            t["mol"] = 2.0 * L if math.isfinite(L) else L
             # keep the pair (z0, ustar) consistent for the new stability
             t["ustar"] = KAP * U / (math.log(zm / case["z0"]) + _psi(zm / t["mol"]))
         o2 = check_case(t)
